@@ -211,3 +211,15 @@ PROPS["C11"] = {
     ],
     "assumptions": ["names and bodies are valid UTF-8", "harness readers always read (stalls <= 20 ms virtual)", "socket buffers 64 B - 64 kB, registration buffers 1-8"],
 }
+
+PROPS["C10"] = {
+    "title": "Binary frames decode to what was encoded under any fragmentation",
+    "level": "exploration",
+    "design_ref": "DESIGN.md §3 C10",
+    "technique": "runtime monitoring of every exported encoder/decoder pair: all single split points per input, byte-wise and random multi-splits, truncation + EOF; byte-level mutation of tags/length prefixes with re-encode oracle; child-process abort probe; Miri",
+    "text": "Every encoder/decoder pair of swimos_agent_protocol::encoding and swimos_messages::protocol (46 instantiations incl. typed bodies as Value and Text) is driven with hostile 1-6 message streams decoded at every single split point, byte-wise, under random multi-splits and truncated with EOF: the decoded sequence, the per-message byte boundaries and the delivery of each message as soon as its last byte has arrived must match what was encoded; a valid stream never errors or panics. Tags and length prefixes are mutated: outcomes must be Err, or messages that re-encode to the bytes consumed (raw codecs), or frames consistent with the length prefixes present (typed codecs); panics are violations; allocation aborts are detected in child processes.",
+    "note": "Trusted base: the reference wire layouts in engines/codec/src/wire.rs (self-checked against every real frame; a mismatch makes the case inconclusive). Recon bodies that a one-shot print/parse does not round-trip are replaced (C09's concern). Panics are observed with overflow checks on. For streams over 2 KiB interior split points are sampled.",
+    "runs": [{"engine": "codec"}],
+    "sanitizers": [{"kind": "miri", "engine": "codec", "args": ["--scale", "0.002", "--threads", "1"], "timeout_s": 3600}],
+    "assumptions": ["mutations touch header fields only", "behaviour after the first Err is not examined", "a hang inside one decode call shows only as a watchdog exit (inconclusive)"],
+}
